@@ -7,7 +7,8 @@
 EXTENDS Integers, Sequences, FiniteSets, TLC
 
 EntryPoints == {"tunnel", "legacy-order", "authorization", "ntlm-message", "kdcproxy", "web"}
-Phases == {"init", "hs", "created", "authorized", "channel"}
+\* "stalled": a channel is open, the host keeps sending and this client has stopped reading (the relay is blocked in its write)
+Phases == {"init", "hs", "created", "authorized", "channel", "stalled"}
 Classes(ep) ==
   CASE ep = "tunnel" -> {"hdr-len-0", "hdr-len-4", "hdr-len-7", "hdr-len-huge", "hdr-len-max", "hdr-trunc", "type-random", "type-response", "body-trunc-create", "body-long-create",
                          "body-trunc-chan", "body-long-chan", "body-odd-utf16", "body-trunc-auth", "body-long-auth", "data-decl-long", "data-empty", "random-bytes", "text-message", "zero-length-message"}
@@ -15,7 +16,7 @@ Classes(ep) ==
     [] ep = "authorization" -> {"bare-ntlm", "bare-negotiate", "bare-basic", "embedded-scheme", "one-char", "long-garbage", "ntlm-garbage", "basic-notbase64", "negotiate-garbage", "nul-bytes"}
     [] ep = "ntlm-message" -> {"short-negotiate", "trunc-authenticate", "bad-offsets", "challenge-type", "random", "sig-only", "huge"}
     [] ep = "kdcproxy" -> {"random-der", "nested-deep", "empty", "huge-length", "short-message", "trailing"}
-    [] ep = "web" -> {"tokeninfo-garbage", "connect-garbage-cookie", "callback-garbage", "long-url", "metrics"}
+    [] ep = "web" -> {"tokeninfo-garbage", "connect-garbage-cookie", "callback-garbage", "long-url", "metrics", "anonymous-after-login", "stale-cookie-after-login"}
 Configs == [tls : BOOLEAN, buffers : BOOLEAN, auth : {"openid", "ntlm", "local", "kerberos"}]
 Outcomes == {"error-reply", "closed-that-connection", "served", "ignored"}
 
